@@ -104,6 +104,9 @@ def parse_stderr(text):
                 cur["_last_num"] = int(m.group(1))
             if ("at the end of the function body" in line or "at this exit" in line) and cur.get("_last_num") and not cur.get("fn_line"):
                 cur["fn_line"] = cur["_last_num"]
+            # a failed precondition is reported AT the call; the clause is the secondary span
+            if "failed precondition" in line and cur.get("_last_num") and not cur.get("clause_line"):
+                cur["clause_line"] = cur["_last_num"]
     for e in out:
         e["text"] = "\n".join(e["text"])[:3000]
     return out
@@ -185,7 +188,10 @@ def analyse(unit, path, report, res):
             internal.append(e)
             continue
         it = item_for_line(report, e.get("fn_line") or e["line"]) or item_for_line(report, e["line"])
-        rec = {"label": it["label"] if it else None, "props": (it.get("props") if it else None), "msg": e["msg"], "text": e["text"], "line": e["line"], "tags": clause_tags(gen_lines, e["line"])[0], "composite": clause_tags(gen_lines, e["line"])[1]}
+        tag_line = e.get("clause_line") or e["line"]
+        low = e["msg"].lower()
+        safety = any(k in low for k in ("overflow", "underflow", "out of bounds", "division by zero", "divide by zero", "shift"))
+        rec = {"label": it["label"] if it else None, "props": (it.get("props") if it else None), "msg": e["msg"], "text": e["text"], "line": e["line"], "tags": clause_tags(gen_lines, tag_line)[0], "composite": clause_tags(gen_lines, tag_line)[1], "safety": safety}
         if "rlimit" in e["msg"].lower() or "resource limit" in e["msg"].lower():
             rlimited.append(rec)
         elif e["code"]:
@@ -467,8 +473,17 @@ def _check(prop, cfg, tier, seed, scratch, t0):
                     mine = prop in f["tags"]                       # a facet clause
                 elif f.get("tags"):
                     mine = (prop in f["tags"]) and not precise     # the composite, consulted only alone
+                elif f.get("safety"):
+                    # arithmetic overflow / bounds: a panic -- totality (C03) where the function
+                    # serves it, otherwise every property the function serves
+                    props_it = it.get("props") or []
+                    mine = (prop == "C03") if "C03" in props_it else tagged(it, prop)
+                elif precise:
+                    # an untagged invariant / hint / callee precondition failing next to a
+                    # tagged facet of the same function is collateral of the same defect
+                    mine = False
                 else:
-                    mine = tagged(it, prop)                        # untagged (panic, overflow, bounds, ..): every property the function serves
+                    mine = tagged(it, prop)                        # untagged, alone: every property the function serves
                 if mine:
                     violations.append({"obligation": "%s: %s" % (label, f["msg"]), "unit": an["unit"], "verifier_output": f["text"]})
                 else:
